@@ -34,6 +34,7 @@ type Node struct {
 	snapEvery bool
 	stats  map[string]int
 	seenOK map[[32]byte]bool
+	everTrusted map[string]bool // sealers that were in this node's trusted set at any time (the exemption applies when a vertex is validated)
 }
 
 func newNode(w *World, name string, signer *wallet.Wallet) *Node {
@@ -43,7 +44,7 @@ func newNode(w *World, name string, signer *wallet.Wallet) *Node {
 		panic(err)
 	}
 	ab.VerifDetachRepeater()
-	n := &Node{w: w, name: name, signer: signer, ab: ab, cancel: cancel, snapEvery: true, stats: map[string]int{}, seenOK: map[[32]byte]bool{}}
+	n := &Node{w: w, name: name, signer: signer, ab: ab, cancel: cancel, snapEvery: true, stats: map[string]int{}, seenOK: map[[32]byte]bool{}, everTrusted: map[string]bool{}}
 	n.prev = ab.VerifSnapshot()
 	return n
 }
@@ -72,6 +73,9 @@ func (n *Node) record(op, obs, human string, opKind string, created *accountant.
 	n.steps = append(n.steps, fmt.Sprintf("(Step %s %s %s)", op, obs, snap))
 	n.ops = append(n.ops, human)
 	n.stats["op."+opKind]++
+	for _, a := range s.Trusted {
+		n.everTrusted[a] = true
+	}
 	n.monitors(&n.prev, &s, opKind, created)
 	n.prev = s
 }
@@ -425,7 +429,9 @@ func (n *Node) monitors(prev, cur *accountant.VerifSnapshot, opKind string, crea
 			if r.Weight > mx {
 				mx = r.Weight
 			}
-			if created.Weight != mx+1 {
+			if mx == ^uint64(0) { // max(parent weights)+1 is not a uint64: the code wraps it to 0
+				n.violate("C09", "created-weight-wrapped", fmt.Sprintf("created vertex %d has weight %d on a parent of weight 2^64-1 (max+1 wrapped)", w.H(created.Hash), created.Weight))
+			} else if created.Weight != mx+1 {
 				n.violate("C09", "created-weight", fmt.Sprintf("created vertex %d has weight %d, parents max %d", w.H(created.Hash), created.Weight, mx))
 			}
 		}
